@@ -114,7 +114,7 @@ def judge(ctx, name, pts, shift, l, rep):
     verts, edges, rmax, ok, wall = reference(pts, shift)
     if rmax > (1 / 3 if N > 10 else 2 / 3) or not ok:
         ctx.count("precondition_excluded_density"); return None
-    if wall < 1e-9:
+    if wall < 1e-12:          # circumcentres of well-shaped triangles are accurate to ~1e-15; closer to the wall than this the cell membership is a matter of rounding
         ctx.count("precondition_excluded_vertex_on_cell_wall"); return None
     if l.n_vertices != len(verts):
         rep(f"{l.n_vertices} vertices, the periodic Voronoi diagram has {len(verts)}"); return False
@@ -224,6 +224,63 @@ def run(ctx):
                     reqs.append(dict(op="voro", S=S, verts=[[core.to_scaled(x, S), core.to_scaled(y, S)] for x, y in V],
                                      ridges=[[int(a), int(b)] for a, b in vor.ridge_vertices]))
                     meta.append((name, l, V))
+    # ---- a Voronoi vertex placed next to a cell wall / next to the cell corner, at distances from 3e-11 to 1e-5 on either side: the point set is translated on
+    #      the torus so that a chosen vertex of its diagram lands there.  Decides the half-open cell (0,1]^2 at every scale, and gives Lloyd relaxation
+    #      plaquettes that wrap round the corner (unwrapped centroids outside the unit square).
+    for t in range(2 if quick else 10):
+        N = int(rng.choice([12, 16, 25]))
+        g = int(np.ceil(np.sqrt(N))); gx, gy = np.meshgrid(np.arange(g), np.arange(g))
+        base = ((np.stack([gx.flatten(), gy.flatten()], 1)[:N] + 0.5 + 0.3 * rng.uniform(-1, 1, size=(N, 2))) / g) % 1
+        l0 = vz.generate_lattice(base, shift_vertices=False)
+        for v in rng.choice(l0.n_vertices, size=3 if quick else 8, replace=False):
+            p = l0.vertices.positions[v]
+            for dx, dy in ((2e-10, None), (-2e-10, None), (None, 3e-11), (None, -2e-10), (2e-10, 2e-10), (-2e-10, -3e-11), (1e-5, -1e-5), (-1e-7, 1e-7)):
+                shift_vec = np.array([0.0 if dx is None else dx - p[0], 0.0 if dy is None else dy - p[1]])
+                pts = (base + shift_vec) % 1
+                for shift in (False, True):
+                    name = f"vertex-at-wall(N={N}, d=({dx},{dy}))#{t}.{int(v)}{'s' if shift else ''}"
+                    rep = lambda what, **kw: ctx.impl_violation(f"{name}: {what}", dict(case=name, points=pts.tolist(), shift=shift, **kw))
+                    try:
+                        with warnings.catch_warnings():
+                            warnings.simplefilter("ignore")
+                            l, vor = generate_recorded(pts, shift)
+                    except Exception as ex:
+                        rep(f"generate_lattice raised {type(ex).__name__}: {ex}"); continue
+                    verdict = judge(ctx, name, pts, shift, l, rep)
+                    if verdict is None:
+                        continue
+                    ctx.case((name,), nontrivial=True)
+                    ctx.count("family:vertex-at-wall")
+                    V = np.asarray(vor.vertices, dtype=float)
+                    S = core.dyadic_scale(V.flatten())
+                    reqs.append(dict(op="voro", S=S, verts=[[core.to_scaled(x, S), core.to_scaled(y, S)] for x, y in V], ridges=[[int(a), int(b)] for a, b in vor.ridge_vertices]))
+                    meta.append((name, l, V))
+                    if verdict and not shift and dx is not None and dy is not None:
+                        try:
+                            if l.n_plaquettes == N:
+                                for steps in (1, 2):
+                                    r = gu.lloyd_relaxation(l, steps)
+                                    if r.n_plaquettes != N or r.n_vertices != 2 * N:
+                                        ctx.impl_violation(f"{name}: Lloyd relaxation ({steps} step(s)) changed the number of cells from {N} to {r.n_plaquettes}",
+                                                           dict(case=name, points=pts.tolist(), steps=steps)); break
+                                ctx.count("lloyd_runs_on_corner_wrapping_cells")
+                        except Exception as ex:
+                            ctx.impl_violation(f"{name}: lloyd_relaxation raised {type(ex).__name__}: {ex}", dict(case=name, points=pts.tolist()))
+    # ---- one point set large enough for every 16-bit index to overflow (9 N > 32767), cheap invariants + reference
+    if True:
+        N = 3650
+        pts = rng.uniform(size=(N, 2))
+        for shift in ((True,) if quick else (True, False)):
+            name = f"uniform(N={N}){'s' if shift else ''}"
+            rep = lambda what, **kw: ctx.impl_violation(f"{name}: {what}", dict(case=name, generator=f"default_rng({ctx.seed}) stream, uniform(size=({N},2))", shift=shift, **kw))
+            try:
+                with warnings.catch_warnings():
+                    warnings.simplefilter("ignore")
+                    l = vz.generate_lattice(pts, shift_vertices=shift)
+                if judge(ctx, name, pts, shift, l, rep):
+                    ctx.case((name,), nontrivial=True)
+            except Exception as ex:
+                rep(f"generate_lattice raised {type(ex).__name__}: {ex}")
     # ---- Lloyd relaxation keeps the number of cells
     for t in range(3 if quick else 12):
         N = int(rng.integers(12, 40))
@@ -238,6 +295,46 @@ def run(ctx):
             if r.n_plaquettes != N or r.n_vertices != 2 * N:
                 ctx.impl_violation(f"{name}: Lloyd relaxation changed the number of cells from {N} to {r.n_plaquettes}", dict(case=name, points=pts.tolist(), steps=steps))
             ctx.case((name,), nontrivial=True)
+        except Exception as ex:
+            ctx.impl_violation(f"{name}: lloyd_relaxation raised {type(ex).__name__}: {ex}", dict(case=name, points=pts.tolist(), steps=steps))
+    # ---- Lloyd relaxation on very small point sets (cells as large as the unit cell, unwrapped centroids far outside it).  Every intermediate point set must
+    #      itself satisfy the statement's preconditions (density, genericity, one plaquette per point) for the run to be judged.
+    def admissible(P):
+        try:
+            verts, edges, rmax, ok, wall = reference(P % 1, False)
+        except Exception:
+            return False
+        return ok and rmax <= (1 / 3 if len(P) > 10 else 2 / 3) and wall >= 1e-9
+    D14 = np.array([[0.0570310435873157, 0.9963625185495405], [0.4921982731692245, 0.3169876839175355], [0.7099565047242222, 0.19561636553807227]])
+    for t in range(260 if quick else 3000):
+        N = int(rng.choice([3, 4, 5, 6]))
+        pts = rng.uniform(size=(N, 2))
+        steps = int(rng.integers(1, 4))
+        if t == 0:
+            N, pts, steps = 3, D14, 3                      # the witness of fixed defect D14 runs first
+        name = f"lloyd-small(N={N}, steps={steps})#{t}"
+        try:
+            with warnings.catch_warnings():
+                warnings.simplefilter("ignore")
+                if not admissible(pts):
+                    ctx.count("lloyd_small_precondition_excluded"); continue
+                l = vz.generate_lattice(pts, shift_vertices=False)
+                stage, fine = l, l.n_plaquettes == N
+                for k in range(steps):                                   # the point sets the relaxation passes through
+                    if not fine:
+                        break
+                    cur = np.array([p.center for p in stage.plaquettes])
+                    fine = admissible(cur)
+                    if fine and k + 1 < steps:
+                        stage = vz.generate_lattice(cur % 1, shift_vertices=False)
+                        fine = stage.n_plaquettes == N
+                if not fine:
+                    ctx.count("lloyd_small_precondition_excluded"); continue
+                r = gu.lloyd_relaxation(l, steps)
+            if r.n_plaquettes != N or r.n_vertices != 2 * N:
+                ctx.impl_violation(f"{name}: Lloyd relaxation changed the number of cells from {N} to {r.n_plaquettes} (V={r.n_vertices})", dict(case=name, points=pts.tolist(), steps=steps))
+            ctx.case((name,), nontrivial=True)
+            ctx.count("lloyd_small_runs")
         except Exception as ex:
             ctx.impl_violation(f"{name}: lloyd_relaxation raised {type(ex).__name__}: {ex}", dict(case=name, points=pts.tolist(), steps=steps))
     # ---- model
